@@ -18,6 +18,7 @@ SPECS = {
     "far": dict(vars={"x1": [0, 1], "x2": ["a", "b"], "x3": [7, 0]}, cons=[["x1", "x3"]]),          # x2 has no constraint
     "unordered": dict(vars={"xb": [0, 1], "xa": ["a", "b"], "xc": [7, 0]}, cons=[["xc", "xa"], ["xb", "xc"]]),
     "double": dict(vars={"x1": [0, 1], "x2": ["a", "b"]}, cons=[["x1", "x2"], ["x2", "x1"]]),
+    "line4": dict(vars={"x1": [0, 1], "x2": ["a", "b"], "x3": [7, 0], "x4": ["u", "v"]}, cons=[["x1", "x2"], ["x2", "x3"], ["x3", "x4"]]),
     "chain4": dict(vars={"x1": [0, 1], "x2": ["a", "b"], "x3": [7, 0], "x4": ["u", "v"]}, cons=[["x1", "x2"], ["x2", "x3"], ["x3", "x4"], ["x1", "x4"]]),
 }
 
@@ -77,8 +78,13 @@ def _shapes(tier, prop=None):
     q = [dict(spec="pair"), dict(spec="pair3", modes=["min"]), dict(spec="chain3", modes=["min"]), dict(spec="chain3", modes=["max"]),
          dict(spec="far", modes=["min"]), dict(spec="unordered", modes=["min"], start_order="rev", interleave_start=True),
          dict(spec="double", modes=["min"]), dict(spec="triangle", modes=["max"])]
+    # 4 variables: a variable in the middle of the order backtracks under a finite bound (too many paths for the exact
+    # exploration: decided by the sampled native pass, several parts in parallel)
+    q += [dict(spec="line4", modes=["min"], sample_only=True, sample_factor=12, sample_part=i) for i in range(4)]
+    q += [dict(spec="chain4", modes=["min"], sample_only=True, sample_factor=12, sample_part=4),
+          dict(spec="line4", modes=["max"], sample_only=True, sample_factor=12, sample_part=5)]
     if prop == "C10" and tier == "quick":
-        return [q[0], q[4]]
+        return [q[0], q[4], q[8]]
     if tier != "thorough":
         return q
     return q + [dict(spec="triangle", modes=["min"]), dict(spec="pair3", modes=["max"]), dict(spec="far", modes=["max"]),
